@@ -3,13 +3,28 @@
    check_var / check_implied (generate.VerifyAttrs).  Result classes: Ok (accepted), Reject (RuntimeError
    diagnostic), Crash (internal Python exception), OutOfFuel (non-termination within the model's fuel). *)
 From Coq Require Import List NArith ZArith Bool Arith String.
-From Shroud Require Import Base.Ustr Model.Splicer Model.Options Model.Lexer Model.Expr Model.Decl Model.Attrs Proof.Decl Proof.Attrs.
+From Shroud Require Import Base.Ustr Model.Splicer Model.Options Model.Lexer Model.Expr Model.Decl Model.Attrs Proof.Decl Proof.Attrs Proof.Fuel.
 Import ListNotations.
 
 (* every text, in every scope: the declaration parser never ends in an internal exception *)
 Theorem C17_parser_never_fails_internally : forall c s e, parse_statement c s <> Crash e.
 Proof. exact parse_statement_no_crash. Qed.
 Print Assumptions C17_parser_never_fails_internally.
+
+(* it never hangs: for every text and every scope the parser model terminates within the fuel it is given
+   (8 per token + 16 for declarations, 4 per token + 8 for expressions), i.e. the recursive descent always consumes input *)
+Theorem C17_parser_always_terminates : forall c s, parse_statement c s <> OutOfFuel.
+Proof. exact parse_statement_total. Qed.
+Print Assumptions C17_parser_always_terminates.
+
+Theorem C17_expression_parser_always_terminates : forall ts, parse_expression ts <> OutOfFuel.
+Proof. exact parse_expression_total. Qed.
+Print Assumptions C17_expression_parser_always_terminates.
+
+(* parsing followed by attribute validation terminates as well *)
+Theorem C17_validation_always_terminates : forall c e as_var s, parse_and_verify c e as_var s <> OutOfFuel.
+Proof. exact parse_and_verify_total. Qed.
+Print Assumptions C17_validation_always_terminates.
 
 (* trailing text is never silently accepted: acceptance means the statement parser stopped exactly at the end *)
 Theorem C17_accepted_statement_consumes_all : forall c s st,
